@@ -125,7 +125,7 @@ func anyOf(k int) (v interface{}, encodable bool) {
 	case 7:
 		return &PtrOnly{A: 7}, true
 	case 8:
-		return nil, false // a nil interface{}: may or may not be transportable
+		return nil, true // a nil interface{} travels as a nil interface value ("nil values" are part of the statement)
 	case 9:
 		return func() {}, false
 	case 10:
@@ -228,10 +228,7 @@ func runArgs(a Args) (err error, encodable bool) {
 	}
 	args := []interface{}{a.I, a.S, a.F, a.B, a.Is, a.M, structOf(a.St), p, any}
 	if sl == nil {
-		args = append(args, nil)
-		if a.Cfg.Exec != "local" {
-			encodable = false // a nil bigslice.Slice: may or may not be transportable
-		}
+		args = append(args, nil) // a nil bigslice.Slice travels like any nil interface value
 	} else {
 		args = append(args, sl)
 	}
